@@ -349,10 +349,68 @@ PARTS["filter"] = dict(
     formulas=_C18_FORMULAS,
     interesting=_flt_interesting, required=_flt_required,
     assumptions=_C18_ASSUME + ["filter level: the real Filter (FilterFacade hook) with the crate's RateLimiter built by RateLimiterBuilder; virtual time by the RateLimiter::verif_age hook, the real microseconds a behaviour takes never reach a tick (behaviours slower than half a tick would be re-run)",
-                               "a datagram takes initial_pass and, if it passed and names a node id, final_pass (the order of RecvHandler::handle_inbound; recv.rs itself - UDP I/O, the expected-response exemption, packet decoding - is not executed)",
+                               "a datagram takes initial_pass and, if it passed and names a node id, final_pass (the order of RecvHandler::handle_inbound; the real handle_inbound is bound by the recv part)",
                                "the process-global PERMIT_BAN_LIST is driven through the public Discv5::{ban_ip, permit_ip, ban_node, permit_node, *_remove} API and read with the ban_list_snapshot hook; it is reset at every behaviour start and the checks using it are serialised within one harness process",
                                "max_nodes_per_ip / max_bans_per_ip are off (None) wherever 'within every applicable quota => never refused' is judged; configurations with them on are checked for conformance of the transcription and the remaining formulas",
                                "the copy of the filter whose limiter is never pruned judges each datagram against the same ban list (restored before the pruned copy judges it)",
                                "expiry of bans is the handler's business (unban_nodes_check), not the filter's: the filter treats every listed entry as banned; 'banned for at least the configured duration' is judged on the recorded expiry instant"],
 )
-PROPS["C18"] = dict(parts=[dict(name="limiter"), dict(name="filter")])
+
+
+def _recv_flags(e):
+    op, pre = e["op"], e["pre"]
+    nd = op["node"] if op["kind"] == "msg" else 0
+    return dict(sol=op["ip"] in e["exp"], pIp=op["ip"] in pre["pi"], bIp=any(b[0] == op["ip"] for b in pre["bi"]),
+                pNode=nd in pre["pn"], bNode=any(b[0] == nd for b in pre["bn"]),
+                ipBanned=any(b[0] == op["ip"] for b in e["post"]["bi"]), nodeBanned=any(b[0] == nd for b in e["post"]["bn"]))
+
+
+def _recv_interesting(e):
+    if e["op"]["o"] != "dgram":
+        return e["op"]["o"] not in ("tick", "reset")
+    fl = _recv_flags(e)
+    return e["ret"][0] != "inbound" or e["op"]["kind"] != "msg" or fl["sol"] or fl["pIp"] or fl["pNode"]
+
+
+def _recv_required(events):
+    seen = set()
+    for e in events:
+        if e["op"]["o"] != "dgram":
+            continue
+        fl, out, kind = _recv_flags(e), e["ret"][0], e["op"]["kind"]
+        if fl["sol"]:
+            if out != "drop" and ((fl["bIp"] and not fl["pIp"]) or (fl["bNode"] and not fl["pNode"])):
+                seen.add("solicited-bypasses-ban")
+            continue
+        seen.add(kind + ":" + out)
+        if out == "drop" and not fl["bIp"] and fl["ipBanned"]:
+            seen.add("ip-excess-ban")
+        if out == "drop" and not fl["bNode"] and fl["nodeBanned"]:
+            seen.add("node-excess-ban")
+        if out == "drop" and not fl["bIp"] and not fl["bNode"] and not fl["ipBanned"] and not fl["nodeBanned"]:
+            seen.add("total-refusal")
+        if out == "drop" and fl["bNode"] and not fl["pNode"] and not fl["bIp"]:
+            seen.add("banned-node-drop")
+        if out != "drop" and fl["bIp"] and fl["pIp"]:
+            seen.add("permit-over-ban-ip")
+    need = ["msg:inbound", "msg:drop", "way:inbound", "way:drop", "junk:unrecognized", "junk:drop", "solicited-bypasses-ban", "ip-excess-ban",
+            "node-excess-ban", "total-refusal", "banned-node-drop", "permit-over-ban-ip"]
+    return [n for n in need if n not in seen]
+
+
+PARTS["recv"] = dict(
+    component="recv", spec="MC_Recv.tla",
+    mc={"quick": ["MC_Recv.cfg"], "thorough": ["MC_Recv.cfg", "MC_Recv_b.cfg"]},
+    goals_cfg="MC_Recv_goal.cfg", goals=["GoalSolicitedBypass", "GoalNodeStageOnlyMsg", "GoalSolicitedMsg"],
+    sim={"quick": [dict(cfg="MC_Recv_sim.cfg", num=80, depth=45)], "thorough": [dict(cfg="MC_Recv_sim.cfg", num=2000, depth=60)]},
+    drive={"quick": 3000, "thorough": 80000},
+    trace="Trace_Recv.tla", mon_cfg="Trace_Recv_mon.cfg", strict_cfg="Trace_Recv_strict.cfg",
+    formulas=_C18_FORMULAS,
+    interesting=_recv_interesting, required=_recv_required,
+    assumptions=_C18_ASSUME + ["receive-task level: the real RecvHandler::handle_inbound (expected-response exemption, Filter::initial_pass, Packet::decode, Filter::final_pass, forwarding to the packet handler) "
+                               "is fed with real datagrams (random-data message packets naming a node id, WHOAREYOU packets, undecodable bytes) through the RecvFacade hook; the handler owns a loopback UDP socket that is never read; "
+                               "the receive loop itself (recv_from, the 30 s prune interval) is not executed: prune is called explicitly",
+                               "only what reaches the packet handler is observable at this level (drop / inbound / unrecognized frame), not the stage that dropped a datagram: a drop must be justified by the IP stage (unless the IP is permitted) or by the node stage (a named, not permitted node id)",
+                               "a source a response is expected from (filter_expected_responses) is solicited: nothing is demanded of its datagrams here"],
+)
+PROPS["C18"] = dict(parts=[dict(name="limiter"), dict(name="filter"), dict(name="recv")])
